@@ -231,14 +231,18 @@ int main(int argc, char* const* argv)
     }
     char* script_str = nullptr;
     if (pipe_in) {
-        char buf[1024];
-        buf[0] = 0;
-        if (!fgets(buf, 1024, stdin)) {
+        // the whole first line, however long (a single 520 byte push is 1040 hex characters)
+        char* buf = nullptr;
+        size_t cap = 0;
+        if (getline(&buf, &cap, stdin) < 0) {
             fprintf(stderr, "warning: no input\n");
+            free(buf);
+            buf = strdup("");
         }
         int len = strlen(buf);
         while (len > 0 && (buf[len-1] == '\n' || buf[len-1] == '\r')) buf[--len] = 0;
         script_str = strdup(buf);
+        free(buf);
     } else if (ca.l.size() > 0) {
         script_str = strdup(ca.l[0]);
         ca.l.erase(ca.l.begin(), ca.l.begin() + 1);
